@@ -45,6 +45,7 @@ void sym_inputs(void)
 #ifdef REPLAY
 #include "replay_inputs.inc"
 #else
+  SYM_FEED();
   SYM_ARR(in); SYM(qstatus); SYM(wfail_at); SYM(open_fails); SYM(chdir_fails);
 #endif
 }
